@@ -26,6 +26,10 @@ NAME_SCHEMES = {
 }
 
 
+class ConstructError(Exception):
+    """the explainer (or its parts) could not be constructed for a scenario"""
+
+
 class Scenario:
     """Configuration of one run (everything a replay needs)."""
 
@@ -304,7 +308,12 @@ def run_scenario(sc, tape_mode="log", script=None, keep_raw=False, provider=None
     """Execute a scenario; returns (trace dict, extras)."""
     random.seed(sc.seed)
     np.random.seed(sc.seed % (2 ** 32))
-    env = build(sc)
+    try:
+        env = build(sc)
+    except TapeMismatch:
+        raise
+    except Exception as e:
+        raise ConstructError("%s: %s" % (type(e).__name__, str(e)[:200])) from e
     ex, rec, names = env["ex"], env["rec"], env["names"]
     conv = env["conv"]
     proj = Projection(env)
